@@ -462,9 +462,18 @@ def _frame_bindings(path: Path, index: int):
             callee = other.data.get('callee')
             for item in getattr(other.node, 'items', ()):
                 call = item.context_expr
+                at = pos
+                if isinstance(call, ast.Name):
+                    # `cm = f(a, b)` ... `with cm:`: the call that made the manager
+                    for before in range(pos - 1, -1, -1):
+                        made = path.events[before]
+                        if made.kind == 'store' and made.data.get('path') == call.id and \
+                                made.data.get('fid') == other.data.get('fid'):
+                            call, at = made.data.get('value'), before
+                            break
                 if isinstance(call, ast.Call) and callee is not None and \
                         ast.unparse(call.func).split('.')[-1] == callee.fn.name:
-                    found = _bind_call(call, callee.fn, pos)
+                    found = _bind_call(call, callee.fn, at)
             break
         if other.kind == 'enter' and other.data.get('fid') != fid and \
                 pos + 1 < len(path.events) and \
@@ -855,6 +864,7 @@ def _record_display(call: ast.Call, fn):
             return None
     display = ast.copy_location(ast.Tuple(elts=elts, ctx=ast.Load()), call)
     display.record_fields = names
+    display.record_class = binding[1]
     return display
 
 
@@ -1479,6 +1489,30 @@ def thunk_body(an: Analysis, fn: FunctionInfo, expr, depth: int = 3):
             return None
         body = ast.copy_location(ast.Call(func=expr.args[0], args=list(expr.args[1:]),
                                           keywords=list(expr.keywords)), expr)
+    elif isinstance(expr, ast.Tuple) and getattr(expr, 'record_class', None):
+        # a callable record: ``Record(a, b)`` whose ``__call__(self)`` returns one expression
+        # over its fields stands for that expression over ``a`` and ``b``
+        method = an.p.find_method(expr.record_class, '__call__')
+        if method is None or method.kind != 'sync' or len(method.node.args.args) != 1 or \
+                method.node.args.vararg or method.node.args.kwarg or \
+                method.node.args.kwonlyargs:
+            return None
+        stmts = [s for s in method.node.body
+                 if not (isinstance(s, ast.Expr) and isinstance(s.value, ast.Constant))]
+        if len(stmts) != 1 or not isinstance(stmts[0], ast.Return) or stmts[0].value is None:
+            return None
+        me = method.node.args.args[0].arg
+        given = dict(zip(expr.record_fields, expr.elts))
+
+        class Field(ast.NodeTransformer):
+            def visit_Attribute(self, node):
+                if isinstance(node.value, ast.Name) and node.value.id == me and \
+                        node.attr in given:
+                    return copy.deepcopy(given[node.attr])
+                return self.generic_visit(node)
+        body = Field().visit(copy.deepcopy(stmts[0].value))
+        if any(isinstance(n, ast.Name) and n.id == me for n in ast.walk(body)):
+            return None
     else:
         return None
     for _ in range(depth):
@@ -1506,6 +1540,68 @@ def thunk_body(an: Analysis, fn: FunctionInfo, expr, depth: int = 3):
                 return node
         body = Sub().visit(copy.deepcopy(stmts[0].value))
     return body
+
+
+def constructor_field(an: Analysis, cls_qn: str, field: str, depth: int = 5):
+    """
+    the expression stored into ``self.<field>`` when an instance of ``cls_qn`` is made, in
+    terms of the parameters of that class's ``__init__``: the single unconditional store
+    in the constructor, or the one made by the base class constructor it calls
+    (``super().__init__(a, b)`` / ``Base.__init__(self, a, b)``) with the arguments in
+    place.  None when there is no such single store.
+    """
+    import copy
+
+    def stored(init, defining, depth):
+        if init is None or depth <= 0:
+            return None
+        me = init.node.args.args[0].arg if init.node.args.args else 'self'
+        stores = [n for n in ast.walk(init.node) if isinstance(n, (ast.Assign, ast.AnnAssign))
+                  and any(ast.unparse(t) == '%s.%s' % (me, field) for t in (
+                      n.targets if isinstance(n, ast.Assign) else [n.target]))]
+        if stores:
+            top = [n for n in init.node.body if n in stores]
+            if len(stores) != 1 or len(top) != 1 or stores[0].value is None:
+                return None
+            return copy.deepcopy(stores[0].value)
+        for stmt in init.node.body:
+            call = stmt.value if isinstance(stmt, ast.Expr) else None
+            if not (isinstance(call, ast.Call) and isinstance(call.func, ast.Attribute)
+                    and call.func.attr == '__init__'):
+                continue
+            owner = call.func.value
+            if isinstance(owner, ast.Call) and ast.unparse(owner.func) == 'super':
+                base = an.p.find_method(cls_qn, '__init__', after=defining)
+                call_args = call
+            else:
+                binding = an.p.resolve_dotted(init.module, owner)
+                base = an.p.find_method(binding[1], '__init__') \
+                    if binding and binding[0] == 'class' else None
+                call_args = ast.Call(func=call.func, args=list(call.args[1:]),
+                                     keywords=list(call.keywords))
+            if base is None or base.cls is None:
+                return None
+            inner = stored(base, base.cls.qn, depth - 1)
+            if inner is None:
+                return None
+            bound = _bind_call(call_args, base, 0)
+
+            class Sub(ast.NodeTransformer):
+                def visit_Name(self, node):
+                    if isinstance(node.ctx, ast.Load) and node.id in bound:
+                        return copy.deepcopy(bound[node.id][0])
+                    return node
+            params = {a.arg for a in base.node.args.args[1:] + base.node.args.kwonlyargs}
+            used = {n.id for n in ast.walk(inner) if isinstance(n, ast.Name)} & params
+            if used - set(bound):
+                return None  # a default of the base constructor: not followed
+            return Sub().visit(inner)
+        return None
+
+    init = an.p.find_method(cls_qn, '__init__')
+    if init is None or init.cls is None:
+        return None
+    return stored(init, init.cls.qn, depth)
 
 
 def is_source_node(tree, node) -> bool:
